@@ -259,7 +259,7 @@ func runC26(c *Ctx) {
 	c26R2(x)
 	c26R3(x)
 	c26R4(c)
-	c26R5(c)
+	c26R5(c, "C26.R5")
 	g7DebugDump(c)
 }
 
